@@ -24,7 +24,7 @@ def run_seed(name, props):
             return name, {'*': ('patch does not apply', '')}
         out = {}
         for p in props:
-            r = subprocess.run([os.path.join(VERIF, 'check'), p, '--repo', os.path.join(d, 'repo')], cwd=VERIF,
+            r = subprocess.run([os.path.join(VERIF, 'check'), p, '--repo', os.path.join(d, 'repo'), '--no-evidence'], cwd=VERIF,
                                capture_output=True, text=True)
             rules = sorted(set(re.findall(r': (R[0-9]+\.[\w.]+) in ', r.stdout)))
             errs = [l for l in r.stdout.splitlines() if l.startswith('ANALYSIS-ERROR')]
